@@ -168,6 +168,9 @@ func (r *R) Verdict(verifDir string) (fail bool, first string) {
 	for _, o := range r.Obs {
 		switch o.Status {
 		case Undecided:
+			if os.Getenv("ARVCHECK_SELFTEST_DEBUG") != "" {
+				fmt.Println("  DEBUG undecided", o.Key(), o.Pos, o.Detail)
+			}
 			return true, o.Rule
 		case Violation:
 			isKnown := false
@@ -177,6 +180,9 @@ func (r *R) Verdict(verifDir string) (fail bool, first string) {
 				}
 			}
 			if !isKnown {
+				if os.Getenv("ARVCHECK_SELFTEST_DEBUG") != "" {
+					fmt.Println("  DEBUG violation", o.Key(), o.Pos, o.Detail)
+				}
 				return true, o.Rule
 			}
 		}
